@@ -58,7 +58,7 @@ def ev_to_line(ev):
     e = ev["e"]
     if e == "create":
         return "create %s %d %d" % (ev["s"], ev["lib"], 1 if ev["fail"] else 0)
-    if e in ("destroy", "malloc", "free", "probe"):
+    if e in ("destroy", "malloc", "free", "probe", "ptrrt"):
         return "%s %s" % (e, ev["s"])
     if e == "register":
         return "register %s %s %s" % (ev["s"], ev["f"], ev["o"])
